@@ -107,7 +107,8 @@ static void case_z_conv(ByteSource& in, CaseInfo& ci) {
     Int mant = ref::tshr(A.abs(), A.bits() > 53 ? A.bits() - 53 : 0); if (A.bits() < 53) mant = ref::shl(mant, 53 - A.bits()); double e = std::ldexp((double)(long long)mant.low(), -53); if (A.neg) e = -e;
     REQUIRE(g == e, "mpz_get_d_2exp: mantissa %a, exact truncation is %a", g, e); return; }
   if (f == 7 || f == 9) { uint64_t g = f == 7 ? mpz_get_ui(a) : (uint64_t)mpz_get_ux(a); REQUIRE(g == A.low(), "%s: returned 0x%llx, least significant limb of |a| is 0x%llx", names[f], (unsigned long long)g, (unsigned long long)A.low()); return; }
-  if (f == 8 || f == 10) { bool fits = A >= Int((long long)INT64_MIN) && A <= Int((long long)INT64_MAX); if (!fits) { ci.label("get_si:out_of_range_not_asserted"); (void)mpz_get_si(a); return; }
+  if (f == 8 || f == 10) { bool fits = A >= Int((long long)INT64_MIN) && A <= Int((long long)INT64_MAX); if (!fits) { ci.label("get_si:out_of_range"); int64_t g = f == 8 ? (int64_t)mpz_get_si(a) : (int64_t)mpz_get_sx(a);  /* documented: the least significant part, with the same sign as op */
+      uint64_t mag = g < 0 ? (uint64_t)0 - (uint64_t)g : (uint64_t)g; REQUIRE((g == 0 || (g < 0) == A.neg) && ((mag ^ A.low()) & 0x7fffffffffffffffULL) == 0, "%s(%s): returned %lld for a value that does not fit; documented is the least significant part with the sign of the operand", names[f], show(A).c_str(), (long long)g); return; }
     int64_t g = f == 8 ? (int64_t)mpz_get_si(a) : (int64_t)mpz_get_sx(a); REQUIRE(Int((long long)g) == A, "%s: returned %lld for a value that fits", names[f], (long long)g); return; }
   // fits predicates
   struct R { const char* n; int (*fn)(mpz_srcptr); Int lo, hi; };
